@@ -266,7 +266,7 @@ func AllocBytes() uint64 {
 	return allocSample[0].Value.Uint64()
 }
 
-// Carve lays the given octet strings out back to back in ONE buffer (followed by a guard area) and returns a view of each:
+// Carve lays the given octet strings out back to back (last argument first) in ONE buffer (followed by a guard area) and returns a view of each:
 // every view has the right length and content, but spare capacity, and what lies behind it is the next argument. That is how
 // a caller holds e.g. Ni|Nr|g^ir or the nonces of several exchanges. unchanged() reports whether any octet of the buffer - an
 // argument or the memory behind one - was written to meanwhile.
@@ -277,9 +277,11 @@ func Carve(parts ...[]byte) (views [][]byte, unchanged func() error) {
 	}
 	buf := make([]byte, 0, total)
 	offs := make([]int, len(parts))
-	for i, p := range parts {
+	// laid out in REVERSE order: code that concatenates its arguments in their natural order (append(a, b...)) would
+	// otherwise write b exactly onto b and leave no trace
+	for i := len(parts) - 1; i >= 0; i-- {
 		offs[i] = len(buf)
-		buf = append(buf, p...)
+		buf = append(buf, parts[i]...)
 	}
 	for len(buf) < total {
 		buf = append(buf, 0xC3)
